@@ -14,6 +14,9 @@ af, conf = setup()
 logging.disable(logging.CRITICAL)
 import vbuild
 import vclasses
+import c12_classes
+vclasses.CLASSES.update(c12_classes.CLASSES)          # this process only: the interpreter of programs knows the C12 classes
+vclasses.SIGNATURES.update(c12_classes.SIGNATURES)
 from autofit.mapper.prior.abstract import Prior
 
 
@@ -28,8 +31,18 @@ def spec_of(p):
         d["sigma"] = hexf(p.sigma)
     elif name == "LogUniformPrior":
         d["family"] = "loguniform"
+    elif name == "LogGaussianPrior":
+        d["family"] = "loggaussian"
     else:
         d["family"] = name
+    # where the prior maps the unit interval (its message), not only the limit attributes
+    vf = []
+    for u in (0.1, 0.5, 0.9):
+        try:
+            vf.append(hexf(p.value_for(u)))
+        except BaseException as e:  # noqa
+            vf.append(type(e).__name__)
+    d["vf"] = vf
     wm = getattr(p, "width_modifier", None)
     d["wm"] = None if wm is None else {"type": wm.name_of_class(), "value": hexf(wm.value)}
     return d
@@ -40,8 +53,29 @@ def make_wm(d):
     return cls(unhex(d["value"]))
 
 
+def make_prior(s):
+    if s["family"] == "loggaussian":
+        return af.LogGaussianPrior(mean=unhex(s["mean"]), sigma=unhex(s["sigma"]),
+                                   lower_limit=unhex(s["lo"]), upper_limit=unhex(s["hi"]))
+    return vbuild.make_prior(af, s)
+
+
+def extra_value(kind):
+    return {"int": 3, "str": "txt", "none": None, "obj": c12_classes.Marker(7), "bool": True}[kind]
+
+
+def follow(obj, path):
+    for k in path:
+        obj = getattr(obj, k)
+    return obj
+
+
+def same_extra(a, b):
+    return type(a) is type(b) and a == b
+
+
 def make_new_prior(s):
-    p = vbuild.make_prior(af, s)
+    p = make_prior(s)
     if s.get("wm"):
         p.width_modifier = make_wm(s["wm"])
     return p
@@ -55,6 +89,8 @@ def exc_kind(e):
         return "PriorException"
     if isinstance(e, IndexError):
         return "IndexError"
+    if isinstance(e, TypeError):
+        return "TypeError"
     if isinstance(e, KeyError):
         return "KeyError"
     return type(e).__name__
@@ -133,14 +169,22 @@ def run_case(c):
     prog = c["program"]
     # priors first (some carry their own width modifier), then the composition: component copies made by the program
     # (Model.copy() deep-copies prior objects, keeping their ids) then carry the modifier as well
-    pool = [vbuild.make_prior(af, s) for s in prog["pool"]]
+    pool = [make_prior(s) for s in prog["pool"]]
     for k, d in (c.get("wms") or {}).items():
         pool[int(k)].width_modifier = make_wm(d)
     model = vbuild.build_expr(af, prog["root"], pool)
+    # non-float constants held directly by collections (ints, strings, None, objects, bools)
+    extras = c.get("extras") or []
+    try:
+        for path, key, kind in extras:
+            setattr(follow(model, path), key, extra_value(kind))
+        extras_set = all(same_extra(getattr(follow(model, path), key, KeyError), extra_value(kind)) for path, key, kind in extras)
+    except BaseException:  # noqa
+        extras_set = False
     idmap = {p.id: i for i, p in enumerate(pool)}
     npool = len(pool)
     mode = c["mode"]
-    out = {"orig": describe(model, idmap, None)}
+    out = {"orig": describe(model, idmap, None), "extras_set": extras_set}
     out["orig"]["specs"] = [spec_of(p) for p in pool]
     out["id_order_ok"] = all(pool[i].id < pool[i + 1].id for i in range(npool - 1))
     probe = [unhex(x) for x in c["probe"]]
@@ -202,29 +246,51 @@ def run_case(c):
             d = describe(new_model, idmap2, probe)
             d["n_new"] = len(news)
         out["out"] = {"ok": d}
+        ex = []
+        try:
+            ninst = new_model.instance_from_vector([unhex(x) for x in (c.get("new_probe") or [])] if k != "fixed" else [],
+                                                   ignore_prior_limits=True) if (k == "fixed" or c.get("new_probe") is not None) else None
+        except BaseException:  # noqa
+            ninst = None
+        for path, key, kind in extras:
+            def present(root):
+                try:
+                    return same_extra(getattr(follow(root, path), key), extra_value(kind))
+                except BaseException:  # noqa
+                    return False
+            ex.append([path, key, kind, present(new_model), True if ninst is None else present(ninst)])
+        out["extras"] = ex
         # the original model is left as it was
         after = describe(model, idmap, None)
         out["orig_unchanged"] = (after["tree"] == out["orig"]["tree"] and after["ids"] == out["orig"]["ids"]
                                  and [spec_of(p) for p in pool] == out["orig"]["specs"])
     # the same through a search result (means / bounded modes): result.model, .model_absolute, .model_relative, .model_bounded
-    if k in ("means", "bounded") and c.get("via_result"):
+    variant = c.get("via_result")
+    if k in ("means", "bounded") and variant:
         values = means if k == "means" else floats
-        if len(values) == npool:
+        if len(values) == npool and not (k == "means" and (mode.get("no_limits") or (a is not None and r is not None))):
             def via():
                 from autofit.non_linear.samples.sample import Sample
                 from autofit.non_linear.samples.summary import SamplesSummary
                 # means come from the median PDF sample, model_bounded from the maximum likelihood sample:
                 # the other sample carries different numbers so that a mix-up is visible
                 other = [v + 0.5 if abs(v) < 1e15 else v / 2.0 for v in values]
-                sample = Sample.from_lists(model, [values], [0.0], [0.0], [1.0])[0]
-                decoy = Sample.from_lists(model, [other], [-1.0], [0.0], [1.0])[0]
-                if k == "bounded":
+                if variant == "names" and all(len(p) == 1 for p in model.paths):
+                    # keyed by parameter names, as samples read back from samples.csv are
+                    names = [p[0] for p in model.unique_prior_paths]
+                    sample = Sample(0.0, 0.0, 1.0, kwargs=dict(zip(names, values)))
+                    decoy = Sample(-1.0, 0.0, 1.0, kwargs=dict(zip(names, other)))
+                else:
+                    sample = Sample.from_lists(model, [values], [0.0], [0.0], [1.0])[0]
+                    decoy = Sample.from_lists(model, [other], [-1.0], [0.0], [1.0])[0]
+                if variant == "no-median":
+                    # a maximum likelihood search has no median PDF sample: everything comes from the best sample
+                    summary = SamplesSummary(max_log_likelihood_sample=sample, model=model, median_pdf_sample=None)
+                elif k == "bounded":
                     summary = SamplesSummary(max_log_likelihood_sample=sample, model=model, median_pdf_sample=decoy)
                 else:
                     summary = SamplesSummary(max_log_likelihood_sample=decoy, model=model, median_pdf_sample=sample)
                 result = af.Result(samples_summary=summary)
-                if k == "means" and mode.get("no_limits"):
-                    return None
                 if k == "bounded":
                     nm = result.model_bounded(b)
                 elif a is not None:
